@@ -141,7 +141,8 @@ CLAIMED = {
              "newest) each real operation - strndup with symbolic text/limit, release of the oldest, release of the newest with "
              "rollback - must keep every surviving string readable intact through get_parts, store the new text exactly or refuse it, "
              "keep the free-byte count exact, re-establish the invariant (cursor 0 when empty) and never touch a byte outside the "
-             "exact-size heap object.",
+             "exact-size heap object. A second step harness runs the real error.c operations (push incl. queue overflow with rollback, "
+             "SYST:ERR?, clear) from every consistent (queue, heap) state: every queued error reports exactly its text or none.",
         tech="CBMC bounded model checking, one refinement step from an arbitrary valid heap state, heap sizes 2..12",
         ref="3 C20"),
     "C10": dict(
